@@ -121,7 +121,7 @@ pub struct Case {
     pub parallel: bool,
 }
 
-const REAL_INSTANCES: [(usize, f64, f64, RealFn); 9] = [
+const REAL_INSTANCES: [(usize, f64, f64, RealFn); 10] = [
     (1, -1.0, 1.0, RealFn::Sphere),
     (2, -5.12, 5.12, RealFn::Rastrigin),
     (3, 0.0, 10.0, RealFn::ShiftedSphere),
@@ -132,6 +132,8 @@ const REAL_INSTANCES: [(usize, f64, f64, RealFn); 9] = [
     (3, 1.0e3, 1.0e3 + 1.0, RealFn::Sphere),
     // every solution infeasible (+inf): everything ties, nothing ever improves
     (2, -1.0, 1.0, RealFn::AllInf),
+    // a known optimum of 250: "within epsilon of the optimum" is an absolute distance
+    (2, -1.0, 1.0, RealFn::OffsetSphere),
 ];
 const BIT_INSTANCES: [(usize, BitFn); 4] = [(1, BitFn::OneMax), (4, BitFn::Trap), (16, BitFn::OneMax), (7, BitFn::Trap)];
 const PERM_DIMS: [usize; 3] = [3, 5, 8];
